@@ -525,6 +525,9 @@ func (fv *FV) contractMentions(counter string) bool {
 	for _, pc := range c.PreCalls {
 		scan([]*Clause{pc.Cl})
 	}
+	for _, pa := range c.PreAssigns {
+		scan([]*Clause{pa.Cl})
+	}
 	for _, l := range c.Loops {
 		scan(l.Inv)
 	}
